@@ -23,7 +23,10 @@ Inductive case :=
 (* a client whose user may not write its Will's topic ([forbidden]) - or may - connects and is cut off: the Will is a
    publish of that user: neither routed nor retained when forbidden (whether the CONNECT is refused or the Will dropped),
    both when allowed *)
-| CWill (forbidden v5 : bool) (connack : N) (routed retained : bool) (ran : bool).
+| CWill (forbidden v5 : bool) (connack : N) (routed retained : bool) (ran : bool)
+(* an authorised QoS 2 PUBLISH waits for its PUBREL, a second one under the same identifier names a forbidden topic, then
+   the PUBREL: the authorised message is routed, the forbidden one is neither routed nor retained *)
+| CQ2Swap (v5 : bool) (allowed_routed forbidden_routed : bool) (ran : bool).
 
 Definition acode (v : averdict) : N := match v with ARouted t => 10 + t | ADenied => 1 | AProtoErr => 2 end.
 
@@ -60,6 +63,7 @@ Definition case_ok (c : case) : bool :=
       end
   | CAlias ps obs ran =>
       ran && list_eqb N.eqb (map acode (alias_run (fun t => negb (t =? 9)) [] ps)) obs
+  | CQ2Swap _ ar fr ran => ran && ar && negb fr
   | CWill forbidden v5 connack routed retained ran =>
       ran && (if forbidden then negb routed && negb retained && ((connack =? 0) || (connack =? (if v5 then 135 else 5)))
               else (connack =? 0) && routed && retained)
